@@ -10,15 +10,39 @@ VERIF = os.path.dirname(os.path.dirname(os.path.abspath(__file__)))
 LEAN_DIR = os.path.join(VERIF, "lean")
 DRIVER = os.path.join(LEAN_DIR, ".lake", "build", "bin", "dsdriver")
 GENDRIVER = os.path.join(LEAN_DIR, ".lake", "build", "bin", "gendriver")
-# properties that additionally carry theorems about the TRANSLATED source (lean/Gen regenerated from /repo, lean/Tie): registry of those theorems
-TIE_REG = [
-    ("C01", ["DsProofs.Tie.TIE_C01_cy", "DsProofs.Tie.TIE_C01_py", "DsProofs.Tie.TIE_cy_model", "DsProofs.Tie.TIE_py_model"]),
-    ("C13", ["DsProofs.Tie.TIE_cy_eq_py", "DsProofs.Tie.TIE_cy_eq_py_any", "DsProofs.Tie.TIE_cy_model", "DsProofs.Tie.TIE_py_model"]),
-    ("C06", ["DsProofs.Tie.TIE_cy_model"]),
-    ("C08", ["DsProofs.Tie.TIE_cy_model"]),
-    ("C07", ["DsProofs.Tie.TIE_batch_size", "DsProofs.Tie.TIE_batch_size_model"]),
-]
-TIE_PROPS = {p for p, _ in TIE_REG}
+GENBDRIVER = os.path.join(LEAN_DIR, ".lake", "build", "bin", "genbdriver")
+# Ties: parts of the source that are TRANSLATED to Lean on every run (lean/Gen*, regenerated from the repository) and proved equal to the model
+# (lean/Tie*).  Each tie is its own lake library + audit file + driver, so a source change that breaks one translation only affects the
+# properties registered for that tie.
+TIES = {
+    "kernel": dict(translator="translate", targets=["Gen", "Tie", "gendriver"], audit="AuditTie.lean", root="Tie", driver=GENDRIVER,
+                   modules=["Gen.Kernel", "Tie.Properties"],
+                   what="compute_all_importances, compute_all_importances_cy, get_test_batch_size (harness/translate.py -> lean/Gen/Kernel.lean)",
+                   reg=[("C01", ["DsProofs.Tie.TIE_C01_cy", "DsProofs.Tie.TIE_C01_py", "DsProofs.Tie.TIE_cy_model", "DsProofs.Tie.TIE_py_model"]),
+                        ("C13", ["DsProofs.Tie.TIE_cy_eq_py", "DsProofs.Tie.TIE_cy_eq_py_any", "DsProofs.Tie.TIE_cy_model", "DsProofs.Tie.TIE_py_model"]),
+                        ("C06", ["DsProofs.Tie.TIE_cy_model"]),
+                        ("C08", ["DsProofs.Tie.TIE_cy_model"]),
+                        ("C07", ["DsProofs.Tie.TIE_batch_size", "DsProofs.Tie.TIE_batch_size_model"])]),
+    "brute": dict(translator="translate_skel", targets=["GenB", "TieB", "genbdriver"], audit="AuditTieB.lean", root="TieB", driver=GENBDRIVER,
+                  modules=["GenB.Brute", "TieB.Properties"],
+                  what="control skeleton of ShapleyImportance._shapley_bruteforce (harness/translate_skel.py -> lean/GenB/Brute.lean)",
+                  reg=[("C03", ["DsProofs.TieB.TIEB_brute_model", "DsProofs.TieB.TIEB_C03", "DsProofs.TieB.TIEB_C03_uncaught"]),
+                       ("C06", ["DsProofs.TieB.TIEB_C06"]),
+                       ("C08", ["DsProofs.TieB.TIEB_brute_model"]),
+                       ("C15", ["DsProofs.TieB.TIEB_brute_model", "DsProofs.TieB.TIEB_C03_uncaught"])]),
+    "joint": dict(translator="translate_joint", targets=["GenJ", "TieJ"], audit="AuditTieJ.lean", root="TieJ", driver=None,
+                  modules=["GenJ.Joint", "TieJ.Properties"],
+                  what="JointUtility.null_score / mean_score / elementwise_score / elementwise_null_score / __call__ (harness/translate_joint.py -> lean/GenJ/Joint.lean)",
+                  reg=[("C08", ["DsProofs.TieJ.TIEJ_null_score", "DsProofs.TieJ.TIEJ_mean_score", "DsProofs.TieJ.TIEJ_elementwise_score",
+                                "DsProofs.TieJ.TIEJ_elementwise_null_score", "DsProofs.TieJ.TIEJ_call", "DsProofs.TieJ.TIEJ_call_none"])]),
+}
+
+
+def ties_for(prop_id):
+    return [name for name, t in TIES.items() if any(p == prop_id for p, _ in t["reg"])]
+
+
+TIE_PROPS = {p for t in TIES.values() for p, _ in t["reg"]}
 ALLOWED_AXIOMS = {"propext", "Classical.choice", "Quot.sound"}
 FORBIDDEN = re.compile(r"\bsorry\b|\badmit\b|^\s*axiom\s|native_decide|bv_decide|implemented_by|\bunsafe\s|maxHeartbeats\s+0\b", re.M)
 
@@ -60,7 +84,7 @@ def build(targets=("Ds", "DsProofs", "dsdriver"), timeout=3000):
 
 def _closure():
     """Lean files of this project reachable from the build roots (Ds, DsProofs, Driver, Audit)"""
-    seen, todo = set(), ["Ds", "DsProofs", "Driver", "Audit", "Gen", "Tie", "GenDriver", "AuditTie"]
+    seen, todo = set(), ["Ds", "DsProofs", "Driver", "Audit", "Gen", "Tie", "GenDriver", "AuditTie", "GenB", "TieB", "GenBDriver", "AuditTieB", "GenJ", "TieJ", "AuditTieJ"]
     while todo:
         m = todo.pop()
         path = os.path.join(LEAN_DIR, m.replace(".", "/") + ".lean")
@@ -149,8 +173,9 @@ def modules_for(prop_id):
     for pid, m, _ in mk.REG:
         if pid == prop_id and m not in mods:
             mods.append(m)
-    if prop_id in TIE_PROPS and os.environ.get("VERIF_TIE_OK") == "1":
-        mods += ["Gen.Kernel", "Tie.Properties"]
+    for name in ties_for(prop_id):
+        if os.environ.get("VERIF_TIE_OK_" + name) == "1":
+            mods += TIES[name]["modules"]
     return mods
 
 
@@ -165,18 +190,19 @@ def leanchecker(mods, timeout=1500):
 
 # ---- the translated source (Gen) and the theorems that tie it to the model (Tie) ---------------------------------------------------------
 
-def tie_obligations_for(prop_id):
-    return [t for p, ts in TIE_REG if p == prop_id for t in ts]
+def tie_obligations_for(prop_id, name=None):
+    return [t for nm, tie in TIES.items() if name in (None, nm) for p, ts in tie["reg"] if p == prop_id for t in ts]
 
 
-def write_audit_tie():
+def write_audit_tie(name):
+    tie = TIES[name]
     names = []
-    for _, ts in TIE_REG:
+    for _, ts in tie["reg"]:
         for t in ts:
             if t not in names:
                 names.append(t)
-    txt = "import Tie\n/-! axiom audit of the theorems about the translated source (generated by harness/leanio.py) -/\n" + "".join("#print axioms %s\n" % t for t in names)
-    path = os.path.join(LEAN_DIR, "AuditTie.lean")
+    txt = "import %s\n/-! axiom audit of the theorems about the translated source (generated by harness/leanio.py) -/\n" % tie["root"] + "".join("#print axioms %s\n" % t for t in names)
+    path = os.path.join(LEAN_DIR, tie["audit"])
     if not os.path.exists(path) or open(path).read() != txt:
         open(path, "w").write(txt)
 
@@ -184,16 +210,17 @@ def write_audit_tie():
 _TIE_CACHE = {}
 
 
-def tie_build(timeout=1800):
-    """regenerate lean/Gen/Kernel.lean from the repository's current source, rebuild Gen, Tie and gendriver, audit the axioms.
+def tie_build(name="kernel", timeout=1800):
+    """regenerate the Lean text of tie `name` from the repository's current source, rebuild its libraries and driver, audit the axioms.
     Returns dict(ok, problems, report, axioms, secs)."""
-    if "r" in _TIE_CACHE:
-        return _TIE_CACHE["r"]
+    if name in _TIE_CACHE:
+        return _TIE_CACHE[name]
+    tie = TIES[name]
     import importlib, sys
     here = os.path.dirname(os.path.abspath(__file__))
     if here not in sys.path:
         sys.path.insert(0, here)
-    tr = importlib.import_module("translate")
+    tr = importlib.import_module(tie["translator"])
     os.makedirs(os.path.join(LEAN_DIR, ".lake"), exist_ok=True)
     lock = open(os.path.join(LEAN_DIR, ".lake", "verif.lock"), "w")
     fcntl.flock(lock, fcntl.LOCK_EX)
@@ -204,37 +231,44 @@ def tie_build(timeout=1800):
             report = tr.write()
         except Exception as e:  # noqa
             problems.append("translator crashed: %r" % (e,))
-        for name, r in report.items():
+        for fn, r in report.items():
             if isinstance(r, dict) and r.get("ok") is False:
-                problems.append("source function %s is outside the translatable subset: %s" % (name, r.get("why")))
+                problems.append("source function %s is outside the translatable subset: %s" % (fn, r.get("why")))
             if isinstance(r, dict) and r.get("uses_narrow"):
-                problems.append("source function %s assigns to a single-precision variable" % name)
-        write_audit_tie()
-        r = subprocess.run(["lake", "build", "Gen", "Tie", "gendriver"], cwd=LEAN_DIR, capture_output=True, text=True, timeout=timeout)
+                problems.append("source function %s assigns to a single-precision variable" % fn)
+        write_audit_tie(name)
+        r = subprocess.run(["lake", "build"] + tie["targets"], cwd=LEAN_DIR, capture_output=True, text=True, timeout=timeout)
         ok = r.returncode == 0
         if not ok:
-            problems.append("lake build Gen Tie gendriver failed (the translated source is no longer proved equal to the model): " + (r.stdout + r.stderr)[-1500:])
+            problems.append("lake build %s failed (the translated source is no longer proved equal to the model): " % " ".join(tie["targets"]) + (r.stdout + r.stderr)[-1500:])
             try:
-                os.remove(GENDRIVER)          # never run a stale translated kernel
+                if tie["driver"]:
+                    os.remove(tie["driver"])          # never run a stale translation
             except OSError:
                 pass
         else:
-            a = subprocess.run(["lake", "env", "lean", "AuditTie.lean"], cwd=LEAN_DIR, capture_output=True, text=True, timeout=600)
+            a = subprocess.run(["lake", "env", "lean", tie["audit"]], cwd=LEAN_DIR, capture_output=True, text=True, timeout=600)
             out = a.stdout + a.stderr
             for m in re.finditer(r"'([^']+)' depends on axioms: \[([^\]]*)\]", out, re.S):
                 axioms[m.group(1)] = [x.strip() for x in m.group(2).replace("\n", " ").split(",") if x.strip()]
             for m in re.finditer(r"'([^']+)' does not depend on any axioms", out):
                 axioms[m.group(1)] = []
             if a.returncode != 0:
-                problems.append("AuditTie.lean does not check: " + out[-600:])
+                problems.append("%s does not check: " % tie["audit"] + out[-600:])
     finally:
         fcntl.flock(lock, fcntl.LOCK_UN)
         lock.close()
-    _TIE_CACHE["r"] = dict(ok=not problems, problems=problems, report=report, axioms=axioms, secs=round(time.time() - t0, 1))
-    return _TIE_CACHE["r"]
+    _TIE_CACHE[name] = dict(ok=not problems, problems=problems, report=report, axioms=axioms, secs=round(time.time() - t0, 1))
+    return _TIE_CACHE[name]
 
 
 class GenDriver(Driver):
     def __init__(self):
         self.p = subprocess.Popen([GENDRIVER], stdin=subprocess.PIPE, stdout=subprocess.PIPE, text=True, bufsize=1)
+        self.n = 0
+
+
+class GenBDriver(Driver):
+    def __init__(self):
+        self.p = subprocess.Popen([GENBDRIVER], stdin=subprocess.PIPE, stdout=subprocess.PIPE, text=True, bufsize=1)
         self.n = 0
